@@ -47,16 +47,31 @@ Pool == <<
   [name |-> "ctxfilters", clocked |-> FALSE, loads |-> FALSE,
    src |-> "{{ 'v=%(v)s w=%(w)s' | t: w: x.a }}|{{ x.l | map: i => i | join: v }}|{{ x.l | where: i => i == x.n | first }}|{{ x.a | default: v }}"],
   [name |-> "loops", clocked |-> FALSE, loads |-> TRUE,
-   src |-> "{% for i in x.l %}{% render 'inc', x: x %}{% cycle 'p', 'q', 'r' %}{% endfor %}{% render 'inc' for x.l as x %}"] >>
+   src |-> "{% for i in x.l %}{% render 'inc', x: x %}{% cycle 'p', 'q', 'r' %}{% endfor %}{% render 'inc' for x.l as x %}"],
+  \* a macro is called before the render that defines it has defined it; blocks inside partials
+  [name |-> "macros", clocked |-> FALSE, loads |-> TRUE,
+   src |-> "{% call m x.a %}|{% macro m v %}<{{ v }}{% increment mc %}>{% endmacro %}{% call m x.b %}{% include 'usesmacro' %}"],
+  \* a render tag inside a macro body; a partial that is itself an inheritance chain; a call site whose macro
+  \* depends on the data; date strings that leave part of the date to "today"
+  [name |-> "macrorender", clocked |-> FALSE, loads |-> TRUE,
+   src |-> "{% macro m %}{% render 'inc', x: x %}{% endmacro %}{% call m %}|{{ x.a }}"],
+  [name |-> "renderchain", clocked |-> FALSE, loads |-> TRUE,
+   src |-> "{% render 'chain', x: x %}|{% render 'chain', x: x %}"],
+  [name |-> "macrobranch", clocked |-> FALSE, loads |-> FALSE,
+   src |-> "{% if x.n == 2 %}{% macro m a, b='B' %}1:{{ a }}{{ b }}{% endmacro %}{% else %}{% macro m b, a='A' %}2:{{ a }}{{ b }}{% endmacro %}{% endif %}{% call m x.a %}"],
+  [name |-> "partialdate", clocked |-> TRUE, loads |-> FALSE,
+   src |-> "{{ '10:30' | date: '%Y-%m-%d %H:%M' }}|{{ 'March 5' | date: '%Y-%m-%d' }}|{{ x.a }}"] >>
 \* two versions of every partial: an Edit step switches the loader of Environment 1 to the other one
 Partials == << [name |-> "base", src |-> "[{% block b %}base {{ x.b }}{% endblock %}|{% block c %}c{% increment n %}{% endblock %}]",
                 src2 |-> "<<{% block b %}BASE2 {{ x.a }}{% endblock %}>>"],
-               [name |-> "inc", src |-> "<{% increment k %}{% assign v = x.a %}{{ v }}>", src2 |-> "(inc2 {{ x.b }})"] >>
+               [name |-> "inc", src |-> "<{% increment k %}{% assign v = x.a %}{{ v }}>", src2 |-> "(inc2 {{ x.b }})"],
+               [name |-> "chain", src |-> "{% extends 'base' %}{% block b %}ch {{ x.a }}{% endblock %}", src2 |-> "{% extends 'base' %}{% block c %}CH2{% endblock %}"],
+               [name |-> "usesmacro", src |-> "[{% call m 'p' %}{% macro m v %}({{ v }}){% endmacro %}]", src2 |-> "[{% call m 'q' %}]"] >>
 
 TIds == IF TSet = {} THEN DOMAIN Pool ELSE TSet
 DIds == IF DSet = {} THEN 1..2 ELSE DSet
 Calls == {"render", "render_async", "analyze", "from_string", "get_template"}
-PairIds == {t \in TIds : Pool[t].name \in {"ctxfilters", "partials", "counters", "loops"}}
+PairIds == {t \in TIds : Pool[t].name \in {"ctxfilters", "partials", "counters", "loops", "macros", "macrorender", "renderchain"}}
 
 RECURSIVE SeqsUpTo(_, _)
 SeqsUpTo(E, n) == IF n = 0 THEN {<<>>} ELSE SeqsUpTo(E, n - 1) \cup {Append(s, x) : s \in SeqsUpTo(E, n - 1), x \in E}
